@@ -222,7 +222,57 @@ def operator(mult=None, tables=False, retable=False, exact=False):
     if retable:
         alt["retable"] = st.tuples(st.just("retable"), st.integers(0, 4)).map(list)
         kinds = kinds + ["retable"] * 2
+        # operations the library REJECTS (the caller catches the exception): nothing may change (C02's observer
+        # compares every variable with its snapshot after the step)
+        alt["bad"] = st.tuples(st.just("bad"), idx, st.sampled_from(BAD_OPS)).map(list)
+        kinds = kinds + ["bad"] * 2
     return st.sampled_from(kinds).flatmap(lambda k: alt[k])
+
+
+BAD_OPS = ["iadd-int", "add-str", "iadd-none", "replace-none", "volume-bad-name", "natural-density-bad", "sld-bad-wavelength",
+           "formula-bad-string", "dict-bad-count", "mul-bad"]
+
+
+class _BadNumber(object):
+    def __float__(self):
+        raise ValueError("not a number today")
+
+    def __array__(self, *a, **k):
+        raise ValueError("not an array today")
+
+
+def do_bad(E, f, how):
+    """One operation on the formula *f* that the library rejects; the exception is swallowed as a caller would.
+    Returns True if it did raise."""
+    formula = E["formula"]
+    try:
+        if how == "iadd-int":
+            g = f
+            g += 3
+        elif how == "add-str":
+            f + "H2O"
+        elif how == "iadd-none":
+            g = f
+            g += None
+        elif how == "replace-none":
+            f.replace(None, None)
+        elif how == "volume-bad-name":
+            f.volume("dodecahedral")
+        elif how == "natural-density-bad":
+            f.natural_density = _BadNumber()
+        elif how == "sld-bad-wavelength":
+            f.neutron_sld(wavelength=_BadNumber())
+        elif how == "formula-bad-string":
+            formula(str(f) + ")(")
+        elif how == "dict-bad-count":
+            formula(dict((a, _BadNumber()) for a in f.atoms)).mass
+        elif how == "mul-bad":
+            (_BadNumber() * f).mass
+        else:
+            raise ValueError(how)
+    except Exception:  # noqa
+        return True
+    return False
 
 
 def _operator(mult=None):
@@ -387,7 +437,7 @@ def _interpret(E, ops, observer, before, mag, vars_, flags, skipped, ctor_ops, s
         st_.index, st_.op, st_.kind = index, op, kind
         st_.new = st_.changed = None
         st_.operands, st_.inputs, st_.flags = [], None, flags
-        if kind in ("copy", "clone", "add", "mul", "iadd", "chtable", "retable") and not vars_:
+        if kind in ("copy", "clone", "bad", "add", "mul", "iadd", "chtable", "retable") and not vars_:
             skipped += 1
             continue
         n = len(vars_)
@@ -485,6 +535,12 @@ def _interpret(E, ops, observer, before, mag, vars_, flags, skipped, ctor_ops, s
             st_.operands = [op[1] % n]
             v = Var(f, dict(a.comp), "copy", a.table)
             v.exact = a.exact
+        elif kind == "bad":
+            a = vars_[op[1] % n]
+            raised = do_bad(E, a.f, op[2])
+            flags["kinds"].append("bad:%s:%s" % (op[2], "raised" if raised else "accepted"))
+            st_.operands = [op[1] % n]
+            v = None
         elif kind == "clone":
             import copy as _copy
             import pickle as _pickle
